@@ -153,6 +153,8 @@ def control_schedules(draw, alphabet, max_events=4, max_gap=4, post=False):
             sched.append(['fail', draw(st.sampled_from(['f1', 'f2']))])
         elif what == 'open':
             sched.append(['open', draw(st.sampled_from(GATES))])
+        elif what == 'withdraw_pause':
+            sched.append(['withdraw', 'pause'])
         elif what in ('cancel_task', 'restep', 'reload', 'withdraw'):
             sched.append([what])
         else:
